@@ -125,11 +125,20 @@ class SymDateTime:
         raise UnsupportedSQL("fromisoformat of %r" % (x,))
 
 
+import datetime as _dtmod  # noqa: E402
+
+_REAL_DATETIME_CLASS = _dtmod.datetime  # captured at import: while tracing CrossHair swaps the module's classes
+
+
 class _SymDTMeta(type):
     def __instancecheck__(cls, inst: Any) -> bool:
-        import datetime as _d
+        if type(inst) is Instant or type(inst) is _REAL_DATETIME_CLASS:
+            return True
+        return type(inst).__name__ == "datetime" and hasattr(inst, "isoformat")
 
-        return isinstance(inst, (Instant, _d.datetime))
+    def __subclasscheck__(cls, sub: Any) -> bool:
+        # CrossHair evaluates isinstance(x, T) as issubclass(type(x), T) while tracing
+        return sub is Instant or sub is _REAL_DATETIME_CLASS or (getattr(sub, "__name__", "") == "datetime" and hasattr(sub, "isoformat")) or type.__subclasscheck__(cls, sub)
 
 
 class SymDateTimeClass(SymDateTime, metaclass=_SymDTMeta):
@@ -715,7 +724,8 @@ class SymConn:
             self.db.shapes.add(shape_of(sql))
             self.db.statements += 1
             if self.pre_statement is not None:
-                self.pre_statement(self, st)
+                with hx.symbolic():  # the hook runs code under test (another worker): traced
+                    self.pre_statement(self, st)
             env = _Env(self, params)
             kind = st[0]
             if kind == "select":
@@ -941,12 +951,12 @@ class _Env:
             else:
                 row[c] = self.ev(d, None)
                 if isinstance(row[c], _SqlTime):
-                    row[c] = Iso(row[c].s * 1000)
+                    row[c] = _iso_of_sqltime(row[c])
         for c, e in zip(cols, vals):
             if c not in row:
                 raise UnsupportedSQL("unknown column %s.%s" % (table, c))
             v = self.ev(e, None)
-            row[c] = Iso(v.s * 1000) if isinstance(v, _SqlTime) else v
+            row[c] = _iso_of_sqltime(v) if isinstance(v, _SqlTime) else v
         rows = self._rows(table)
         assert self.conn.work_seq is not None
         if meta.autoinc and len(meta.pk) == 1 and row[meta.pk[0]] is None:
@@ -980,7 +990,7 @@ class _Env:
             for c, v in new.items():
                 if c not in r:
                     raise UnsupportedSQL("unknown column %s.%s" % (table, c))
-                r[c] = Iso(v.s * 1000) if isinstance(v, _SqlTime) else v
+                r[c] = _iso_of_sqltime(v) if isinstance(v, _SqlTime) else v
             n += 1
         return Cursor([], n, None)
 
@@ -1019,6 +1029,13 @@ class _SqlTime:
 
     def __init__(self, s: Any) -> None:
         self.s = s
+
+
+def _iso_of_sqltime(v: "_SqlTime") -> Iso:
+    if is_concrete(v.s):
+        return Iso(v.s * 1000)
+    with hx.symbolic():
+        return Iso(v.s * 1000)
 
 
 def _floor_s(ms: Any) -> Any:
